@@ -4,6 +4,18 @@
 #include <stdio.h>
 #include <string.h>
 
+// Copy at most *room bytes of src to *bufit and advance.
+static void replace_substrings_put(char **bufit,
+                                   size_t *room,
+                                   const char *src,
+                                   size_t len)
+{
+    len = __MIN__(len, *room);
+    memcpy(*bufit, src, len);
+    *bufit += len;
+    *room -= len;
+}
+
 void replace_substrings(char *buffer,
                         size_t maxsize,
                         const char *input,
@@ -16,12 +28,18 @@ void replace_substrings(char *buffer,
     const char *strit = input;
     const char *streit = input + inlen;
     char *bufit = buffer;
+    size_t room; // free bytes, one is kept for the terminator
+
+    if (maxsize == 0)
+        return;
+    room = maxsize - 1;
 
     if (sublen == 0)
     {
         size_t len = __MIN__(maxsize - 1, inlen);
         memcpy(buffer, input, len);
         buffer[len] = 0;
+        return;
     }
 
     char *finded;
@@ -29,16 +47,13 @@ void replace_substrings(char *buffer,
     {
         ptrdiff_t step = finded - strit;
 
-        memcpy(bufit, strit, step);
-        bufit += step;
+        replace_substrings_put(&bufit, &room, strit, step);
         strit += step;
 
-        memcpy(bufit, rep, replen);
-        bufit += replen;
+        replace_substrings_put(&bufit, &room, rep, replen);
         strit += sublen;
     };
 
-    ptrdiff_t lastlen = streit - strit;
-    memcpy(bufit, strit, lastlen);
-    *(bufit + lastlen) = 0;
+    replace_substrings_put(&bufit, &room, strit, streit - strit);
+    *bufit = 0;
 }
